@@ -63,7 +63,8 @@ Record ccoro := mkcc { cc_doc : doc; cc_id : Z; cc_flag : Z }.
 
 Record config := mkcfg {
   cwt : bool;        (* completer and complete_while_typing() *)
-  vwt : bool;        (* validator and validate_while_typing() *)
+  hval : bool;       (* a validator is set *)
+  vwt : bool;        (* validate_while_typing() *)
   hsug : bool;       (* auto_suggest is set *)
   maxn : Z;          (* max_number_of_completions *)
   fx : bool }.
@@ -85,8 +86,8 @@ Record state := mkst {
 
 (* the code as it is / as it was at the pinned snapshot; the [fx] field of
    the argument is ignored *)
-Definition current (c : config) : config := mkcfg (cwt c) (vwt c) (hsug c) (maxn c) true.
-Definition pinned (c : config) : config := mkcfg (cwt c) (vwt c) (hsug c) (maxn c) false.
+Definition current (c : config) : config := mkcfg (cwt c) (hval c) (vwt c) (hsug c) (maxn c) true.
+Definition pinned (c : config) : config := mkcfg (cwt c) (hval c) (vwt c) (hsug c) (maxn c) false.
 
 Definition init (c : config) (t : str) (p : Z) : state :=
   mkst c t p None 0 None None 0 [] false false false [] [] [].
@@ -157,10 +158,14 @@ Definition replace_nth {T} (l : list T) (k : Z) (v : T) : list T :=
    validator task created when validate_while_typing *)
 Definition text_changed (s : state) : state :=
   let s1 := set_sug (set_cst (set_val s 0 None) None) None in
-  if vwt (cfg s) then add_pending s1 TVal else s1.
+  if hval (cfg s) && vwt (cfg s) then add_pending s1 TVal else s1.
 
 (* _cursor_position_changed *)
-Definition cursor_changed (s : state) : state := set_cst s None.
+(* complete_state goes; a cached VALID verdict is for the old cursor position
+   and is forgotten (since /repo commit 826cb7e); a cached error stays *)
+Definition cursor_changed (s : state) : state :=
+  let s1 := set_cst s None in
+  if vst s =? 1 then set_val s1 0 None else s1.
 
 (* set_document (the `document` setter) *)
 Definition set_document (s : state) (d : doc) : state :=
@@ -213,7 +218,7 @@ Definition set_text (s : state) (v : str) : state :=
 (* Buffer.delete(count): forward delete, cursor stays *)
 Definition delete_fwd (s : state) (n : Z) : state :=
   if cur s <? len (text s) then
-    let deleted := slice_to (slice_from (text s) (cur s)) n in
+    let deleted := slice_to (slice_from (text s) (cur s)) (Z.max 0 n) in
     set_text s (slice_to (text s) (cur s) ++ slice_from (text s) (cur s + len deleted))
   else s.
 
@@ -232,7 +237,7 @@ Definition swap_chars (s : state) : state * Z :=
    ValidationError(cursor_position=epos)); without a validator always VALID *)
 Definition validate_sync (s : state) (ok : bool) (epos : Z) (setcur : bool) : state :=
   if vst s =? 0 then
-    if vwt (cfg s) && negb ok then
+    if hval (cfg s) && negb ok then
       let d := cur_doc s in
       let s1 := if setcur then move_cursor s (Z.min (Z.max 0 epos) (len (text s))) else s in
       set_val s1 2 (Some d)
@@ -633,10 +638,10 @@ Definition dec_label (x : sx) : option label :=
 
 Definition dec_cfg (x : sx) : option config :=
   match x with
-  | L [a; b; c; A m] =>
-      match as_bool a, as_bool b, as_bool c with
-      | Some a, Some b, Some c => Some (mkcfg a b c m true)
-      | _, _, _ => None
+  | L [a; v; b; c; A m] =>
+      match as_bool a, as_bool v, as_bool b, as_bool c with
+      | Some a, Some v, Some b, Some c => Some (mkcfg a v b c m true)
+      | _, _, _, _ => None
       end
   | _ => None
   end.
